@@ -78,7 +78,7 @@ fn build_roundtrip(tier: &str) -> RoundTrip {
         (0..=255u8).collect()
     };
     let addrs: Vec<(u16, u16)> = if tier == "quick" {
-        vec![(1024, 1), (0xFFFF, 0), (0xFFEF, 0xFFFC), (0x0564, 0x6405)]
+        vec![(1024, 1), (0xFFFF, 0), (0xFFEF, 0xFFFC), (0x0564, 0x6405), (0xFFFD, 0xFFFE), (0xFFFE, 0xFFFD)]
     } else {
         vec![(1024, 1), (0xFFFF, 0), (0xFFEF, 0xFFFC), (0x0564, 0x6405), (0, 0xFFF0), (0xFFFD, 0xFFFE), (1, 1024)]
     };
@@ -822,7 +822,7 @@ pub fn check(tier: &str) -> i32 {
         "round trip: control bytes x address pairs x payload lengths x 3 payload patterns (incl. embedded start bytes and an embedded valid frame), formatted by the library and by the reference builder (must agree byte for byte) and parsed back by the real link Reader under {whole, per frame, every 2-way split, every 3-way split for frames <= 44 bytes, one byte at a time} in both error modes; buffer wrap-around for every filler length 0..=250 and several read sizes; damage: every 1- and 2-bit error (3-bit for frames <= 44 bytes in the thorough tier) and every burst of 2..=16 bits at every position in frames of 10/27/28/45/292 bytes, followed by a clean frame; discard-mode resynchronisation after every noise string of <= 2 (3) tokens under every 2-way split and bytewise; truncated frame + frames (chunking independence); datagram mode (every split point). Oracle: bit-serial CRC + specification framer with full rescan. non-trivial = the case exercised the parser on a frame; distinct = distinct input",
         &[
             "CRC-16/DNP detects every error pattern enumerated here; what is checked is that the parser applies the CRCs to the right bytes and never delivers anything the specification framer does not find",
-            "quick tier: 16 control bytes, 4 address pairs, 30 payload lengths; thorough: all 256 control bytes, 7 address pairs, all lengths 0..=250",
+            "quick tier: 16 control bytes, 6 address pairs (incl. each special address as source and destination), 30 payload lengths; thorough: all 256 control bytes, 7 address pairs, all lengths 0..=250",
         ],
         serde_json::json!({}),
     )
